@@ -158,11 +158,15 @@ def shard(sh):
     fd0 = None
     n = 0
     try:
+        hangs = [0]
+
         def one(case):
             nonlocal n, fd0
             n += 1
             run.case((common.sha12(case["stream"]), case["mode"], case["kind"]), nontrivial=len(case["stream"]) > 0)
             v, out = run_case(run, e2, hs, case)
+            if out["hung"]:
+                hangs[0] += 1
             for mech, summary in v:
                 run.violation(mech, summary + " | loop=%s mode=%s input=%s" % (
                     case["kind"], case["mode"], hexs(bytes.fromhex(case["stream"])[:200])), case)
@@ -181,7 +185,7 @@ def shard(sh):
             allreq = [(r, False) for r in reqs] + [(r, True) for r in PROXY_REQUESTS]
             for base, proxy in allreq[sh["sub"]::sh["of"]]:
                 for cutp in range(0, len(base) + 1):
-                    if run.enough():
+                    if run.enough() or hangs[0] >= 4:
                         break
                     pre = base[:cutp]
                     for kind in e2.KINDS:
@@ -197,7 +201,7 @@ def shard(sh):
             run.extra_cov["prefix_enumeration_complete"] = True
         elif sh["kind"] == "hostile":
             for k in range(sh["n"]):
-                if run.enough():
+                if run.enough() or hangs[0] >= 4:
                     break
                 s = gen.gen_stream(rng, hostile=rng.choice([0.5, 0.9]), sentinel=rng.random() < 0.5)
                 msgs = ref_http.walk(s, "drop")
@@ -220,7 +224,7 @@ def shard(sh):
         else:
             fx = [d for _, d in gen.fixture_streams(common.REPO)]
             for k in range(sh["n"]):
-                if run.enough():
+                if run.enough() or hangs[0] >= 4:
                     break
                 r = rng.random()
                 if r < 0.3:
